@@ -563,6 +563,11 @@ func evalDownload(w wDL) kit.Result {
 			fmt.Fprintf(os.Stderr, "C34 debug: %+v -> error: %v\n", w, err)
 		}
 		switch {
+		case errors.Is(err, downloader.ErrHashMismatch) && fk == "honest":
+			// data and hashes are the genuine ones and nothing was altered (only the protocol events of the quantifier:
+			// token refresh / reupload): a mismatch proves that the bytes the client assembled for a chunk are not the
+			// requested range (pieces of the request plan repeated, dropped or decrypted at the wrong counter)
+			return kit.Bad(w.Mode+":genuine-chunk-rejected", "honest server (event=%q at %d): %v; world %+v", w.Event, w.EventOffset, err, w)
 		case errors.Is(err, downloader.ErrHashMismatch):
 			return kit.OKo(label + " -> rejected:hash-mismatch")
 		case fk == "honest":
@@ -784,8 +789,9 @@ func main() {
 							sort.Slice(offs, func(i, j int) bool { return offs[i] < offs[j] })
 							if ev == "" && mode != "master-verified" {
 								// token invalidation on every CDN data request (i.e. every sub-request of every chunk's
-								// plan) x both error names x both reactions of the master (new redirect / serves the file itself)
-								for _, tev := range []string{"token", "token-req", "fallback", "fallback-file"} {
+								// plan) x both error names x both reactions of the master (new redirect / serves the file itself), and
+								// reupload-needed on every such request (the chunk is re-assembled after upload.reuploadCdnFile)
+								for _, tev := range []string{"token", "token-req", "fallback", "fallback-file", "reupload"} {
 									for _, off := range offs {
 										for _, s := range sinks {
 											w := base
